@@ -148,6 +148,8 @@ type target struct {
 	Tx bool
 
 	sDecode string
+	idx     int  // index in targets (child processes)
+	skip    bool // quarantined in this child: its decoder killed an earlier incarnation of the shard
 }
 
 func tOf(v interface{}) reflect.Type { return reflect.TypeOf(v).Elem() }
